@@ -338,6 +338,16 @@ type Relay struct {
 	DelayUp, DelayDown time.Duration
 	// Blackhole: accept but never forward (silent upstream)
 	Blackhole bool
+	isDown    int32
+}
+
+// SetDown makes the relay close every new connection at once (the far end is unreachable) until switched back.
+func (r *Relay) SetDown(down bool) {
+	v := int32(0)
+	if down {
+		v = 1
+	}
+	atomic.StoreInt32(&r.isDown, v)
 }
 
 type relayConn struct {
@@ -372,6 +382,10 @@ func (r *Relay) loop() {
 			return
 		}
 		atomic.AddInt32(&r.total, 1)
+		if atomic.LoadInt32(&r.isDown) != 0 {
+			c.Close()
+			continue
+		}
 		if r.Blackhole {
 			r.mu.Lock()
 			r.conns = append(r.conns, &relayConn{c: c})
